@@ -234,7 +234,7 @@ void ExecImpl::op_expect(const Op& op, std::function<void()>* scope_body) {
   for (int i = 0; i < d.nseq; ++i) { M.seqs[e.seq[i]].list.push_back(MEntry{false, e.id}); e.in_seq[i] = true; }
   M.exps.push_back(e);
   M.mocks[mock].active[d.fn].insert(M.mocks[mock].active[d.fn].begin(), e.id);
-  if (shadow) { if (scoped) scope_stack.push_back(e.id); return; }
+  if (shadow) { if (scoped) scope_stack.push_back({false, e.id}); return; }
   if (scoped) {
     // ---- the expectation is a local of sshape_N's frame; everything up to the matching end_scope runs inside it ----
     const int id = e.id;
@@ -338,7 +338,7 @@ void ExecImpl::release_exp(int id) {
 // shadow stepping: every open scope ends; real stepping at nesting level 0 (no scope open): nothing to leave
 void ExecImpl::op_unwind(const Op&) {
   if (!shadow) return;
-  while (!scope_stack.empty()) { int id = scope_stack.back(); scope_stack.pop_back(); if (M.exps[static_cast<size_t>(id)].alive) release_model(id); }
+  while (!scope_stack.empty()) { auto it = scope_stack.back(); scope_stack.pop_back(); if (it.first) { if (M.mons[static_cast<size_t>(it.second)].alive) release_mon_model(it.second); } else if (M.exps[static_cast<size_t>(it.second)].alive) release_model(it.second); }
 }
 
 // `seq = trompeloeil::sequence{}`: the overwritten sequence ends exactly like a destroyed one; the object lives on, empty
@@ -378,8 +378,9 @@ void ExecImpl::op_assign_seq(const Op& op) {
 // shadow stepping only: the innermost scope ends (real stepping consumes end_scope in run_range)
 void ExecImpl::op_end_scope(const Op&) {
   if (!shadow || scope_stack.empty()) return;
-  int id = scope_stack.back(); scope_stack.pop_back();
-  if (M.exps[static_cast<size_t>(id)].alive) release_model(id);
+  auto it = scope_stack.back(); scope_stack.pop_back();
+  if (it.first) { if (M.mons[static_cast<size_t>(it.second)].alive) release_mon_model(it.second); }
+  else if (M.exps[static_cast<size_t>(it.second)].alive) release_model(it.second);
 }
 
 void ExecImpl::op_release(const Op& op) {
@@ -399,7 +400,7 @@ void ExecImpl::op_abandon(const Op& op) {
   struct It { uint64_t order; bool mon; int id; };
   std::vector<It> items;
   for (auto& e : M.exps) if (e.alive && !e.scoped && e.actor == actor && !busy_exps.count(e.id)) items.push_back({e.order, false, e.id});
-  for (auto& m : M.mons) if (m.alive && m.actor == actor) items.push_back({m.order, true, m.id});
+  for (auto& m : M.mons) if (m.alive && !m.scoped && m.actor == actor) items.push_back({m.order, true, m.id});
   std::sort(items.begin(), items.end(), [](const It& a, const It& b) { return a.order > b.order; });
   for (auto& it : items) {
     if (stop) break;
